@@ -93,7 +93,7 @@ func c20fRun(c c20fCase) (*Violation, bool) {
 func c20fGen(t *rapid.T) c20fCase {
 	var c c20fCase
 	c.Cfg = harness.Config{Seed: rapid.Uint64Range(1, 1<<32).Draw(t, "seed"), Modules: []string{"auth", "confirm", "lock", "logout", "otp", "recover", "register", "remember"},
-		Setups: []string{"expire", "totp", "recovery"}, Mount: pick(t, "mount", "/auth", ""), JSON: chance(t, "json", 50), Browsers: 2, Middleware: "remember",
+		Setups: []string{"expire", "totp", "sms", "recovery"}, Mount: pick(t, "mount", "/auth", ""), JSON: chance(t, "json", 50), Browsers: 2, Middleware: "remember",
 		LockAfter: 4, LockWindowS: 300, LockDurS: 600, RecoverLogin: chance(t, "reclogin", 50), MailGo: chance(t, "mailgo", 40),
 		Mailer: pick(t, "mailer", "", "", "log", "smtp"), ShippedLog: chance(t, "shippedlog", 70), ModuleList: chance(t, "modlist", 50), Err500: chance(t, "err500", 50), Refusal: 1}
 	for i := 0; i < 2; i++ {
@@ -101,6 +101,9 @@ func c20fGen(t *rapid.T) c20fCase {
 	}
 	for i := 0; i < 2; i++ {
 		c.Cfg.Accounts = append(c.Cfg.Accounts, harness.AccountSpec{PID: fmt.Sprintf("bounce%d@refuse.x.io", i), Password: goodPWs[i%4]})
+	}
+	for i := 0; i < 2; i++ {
+		c.Cfg.Accounts = append(c.Cfg.Accounts, harness.AccountSpec{PID: fmt.Sprintf("sms%d@x.io", i), Password: goodPWs[i%4], Phone: fmt.Sprintf("+1555010%d", i), Recovery: 1})
 	}
 	steps := func(label string) []string {
 		n := rapid.IntRange(2, 5).Draw(t, label)
